@@ -122,3 +122,24 @@ def write_catalog(root, model, slabs=(0,), nh=2, cleaned=True, subsA=None, nprev
                         tree[f'packedpid_{AB}'] = cpid
                 asdf.AsdfFile({'header': dict(hdr), 'data': tree}).write_to(os.path.join(cdir, 'cleaned_rvpid', f'cleaned_rvpid_{s:03d}.asdf'))
     return gdir
+
+
+def write_lc_catalog(root, model, n=2, nprev=2, concrete=None, box=None, velz=None):
+    """A halo LIGHT-CONE catalogue (single lc_halo_info.asdf holding the L2com halo_info columns plus the
+    halo_lc_dt columns); returns the directory to hand to CompaSOHaloCatalog(halo_lc=True)."""
+    box = fl(model.get('BoxSize', 2000)) if box is None else box
+    velz = fl(model.get('VelZSpace_to_kms', 1234)) if velz is None else velz
+    hdr = {'BoxSize': box, 'VelZSpace_to_kms': velz, 'SimName': 'sim', 'Redshift': 0.5, 'ppd': 8.0,
+           'TimeSliceRedshiftsPrev': [0.1 * k for k in range(nprev)]}
+    gdir = os.path.join(root, 'halo_light_cones', 'sim', 'z0.500')
+    os.makedirs(gdir, exist_ok=True)
+    data = {}
+    for nm in sorted(set(raw_names()) | set(chc.halo_lc_dt.names)):
+        if nm in chc.clean_dt_progen.names:
+            continue
+        data[nm] = np.asarray(concrete[nm]) if concrete and nm in concrete else column('s0', nm, n, model, nprev)
+    asdf.AsdfFile({'header': dict(hdr), 'data': data}).write_to(os.path.join(gdir, 'lc_halo_info.asdf'))
+    # the light-cone product always ships its single particle file; the reader opens it even with subsamples off
+    part = {'pos': np.zeros((3, 3), dtype=np.float32), 'vel': np.zeros((3, 3), dtype=np.float32), 'pid': np.arange(3, dtype=np.uint64)}
+    asdf.AsdfFile({'header': dict(hdr), 'data': part}).write_to(os.path.join(gdir, 'lc_pid_rv.asdf'))
+    return gdir
